@@ -225,6 +225,22 @@ class CFG:
         pd = self.postdominators(exits)
         return a.id in pd.get(b.id, set())
 
+    def drop_exc_edges(self, pred: Callable[[Node], bool]) -> int:
+        """Remove the exception edges leaving nodes that satisfy ``pred`` (used
+        when a rule has *verified* that the node cannot raise, e.g. entering a
+        context manager whose ``__init__``/``__enter__`` are trivial)."""
+        k = 0
+        for n in self.nodes:
+            if pred(n) and any(kind == "exc" for _, kind in self.succ[n.id]):
+                for sid, kind in list(self.succ[n.id]):
+                    if kind == "exc":
+                        self.succ[n.id].remove((sid, kind))
+                        self.pred[sid].remove((n.id, kind))
+                        k += 1
+        self._dom = None
+        self._pdom = None
+        return k
+
     def dump(self) -> str:
         r = self.reachable()
         lines = []
